@@ -98,7 +98,7 @@ def bump_typed(rng, d):
 
 # ---------------------------------------------------------------- generation
 def gen_program(rng, pkg, n=None, p_explicit=0.15, p_hidden=0.12, min_memento=2, p_lambda_pair=0.3, p_shadow=0.2,
-                p_init=0.3, p_ext=0.3, p_factory=0.3):
+                p_init=0.3, p_ext=0.3, p_factory=0.3, p_diamond=0.25):
     n = n or rng.randint(3, 7)
     split = rng.randint(0, n - 1)  # nodes [0, split) live in module b, the rest in module a
     shadow = n >= 4 and rng.random() < p_shadow  # a wrapped helper of module b whose wrapper parameter is "a"
@@ -240,6 +240,18 @@ def gen_program(rng, pkg, n=None, p_explicit=0.15, p_hidden=0.12, min_memento=2,
         t = rng.choice(in_a)
         if not any(c["t"] == t for c in nodes[2]["calls"]):
             nodes[2]["calls"].append({"t": t, "form": "attr"})
+    # now and then a diamond of memento functions with a plain helper below the join: u -> m1, m2 -> j -> h
+    mem_main = [i for i in range(n_main) if nodes[i]["kind"] == "memento"]
+    if len(mem_main) >= 4 and rng.random() < p_diamond:
+        u, m1, m2, j = sorted(rng.sample(mem_main, 4))
+        ok = lambda a_, b_: MODS.index(nodes[b_]["mod"]) >= MODS.index(nodes[a_]["mod"])
+        if ok(u, m1) and ok(u, m2) and ok(m1, j) and ok(m2, j):
+            for a_, b_ in ((u, m1), (u, m2), (m1, j), (m2, j)):
+                if not any(c["t"] == b_ for c in nodes[a_]["calls"]):
+                    nodes[a_]["calls"].append({"t": b_, "form": "bare"})
+            below = [h for h in targets(nodes, j) if nodes[h]["kind"] in ("plain", "wrapped") and nodes[h]["mod"] == nodes[j]["mod"]]
+            if below and not any(nodes[c["t"]]["kind"] in ("plain", "wrapped") for c in nodes[j]["calls"]):
+                nodes[j]["calls"].append({"t": rng.choice(below), "form": "bare"})
     if init_chain is not None:
         if not any(c["t"] == init_chain + 1 for c in nodes[init_chain]["calls"]):
             nodes[init_chain]["calls"].append({"t": init_chain + 1, "form": "bare"})
